@@ -326,7 +326,10 @@ def check_stop_maintenance(ctx):
         for nd, x in muts:
             # a view that is used up by the operation (`return`ed result of a cut of everything) still has to clip: no exemption
             reach = cfg.reachable(nd.id, lambda n_, lab, s: lab != 'exc', stop=good)
-            ctx.check('R3.6', cfg.exit not in reach, fi.module, fi.qualname, norm(x, 70),
+            # the kernel call handed straight to the re-synchronising worker (`self._rebase(self.base._put_one(...), n)`): arguments first
+            nested_in_sync = any(isinstance(y, ast.Call) and isinstance(y.func, ast.Attribute) and norm(y.func.value) == 'self' and y.func.attr in syncers and
+                                 any(z is x for a_ in list(y.args) + [k.value for k in y.keywords] for z in ast.walk(a_)) for y in subnodes(cfg, nd))
+            ctx.check('R3.6', nested_in_sync or cfg.exit not in reach, fi.module, fi.qualname, norm(x, 70),
                       'the field length may change here but some path leaves the method without looking at `self._stop`: a bounded view keeps its old '
                       'end and silently takes in (or loses) the neighbouring element; later operations through the view land one off', x.lineno,
                       sample={'method': fi.key, 'call': norm(x, 70)})
